@@ -57,6 +57,10 @@ func (s Step) String() string {
 		return fmt.Sprintf("#%d.%s(%d,%d)", s.Inst, s.Op, s.A, s.B)
 	case "SetSQN", "SetOverflow", "FreeID":
 		return fmt.Sprintf("#%d.%s(%d)", s.Inst, s.Op, s.A)
+	case "AddOne":
+		if s.A > 1 {
+			return fmt.Sprintf("#%d.AddOne()x%d", s.Inst, s.A)
+		}
 	}
 	return fmt.Sprintf("#%d.%s()", s.Inst, s.Op)
 }
@@ -67,6 +71,8 @@ type InstCfg struct {
 	Max int64 `json:"max,omitempty"`
 	O   int64 `json:"overflow,omitempty"` // C11: start state
 	S   int64 `json:"sqn,omitempty"`
+	// C11: the instance is used as its zero value (no initial Set); start state 0
+	Zero bool `json:"zero,omitempty"`
 }
 
 type History struct {
@@ -163,12 +169,25 @@ func shrink(h History, run func(History) *Viol, shrinkArgs func(Step) []Step) Hi
 	}
 	// shrink arguments
 	if shrinkArgs != nil {
-		// at most two passes: the alternatives are not ordered, so an unbounded
-		// fixpoint loop could flip between two equally failing arguments forever
-		for pass, changed := 0, true; changed && pass < 2; pass++ {
+		// pass 0 accepts any failing alternative (boundary values may be "larger");
+		// later passes only accept strictly cheaper arguments, so the loop is well-founded
+		cost := func(s Step) int64 {
+			a, b := s.A, s.B
+			if a < 0 {
+				a = -a
+			}
+			if b < 0 {
+				b = -b
+			}
+			return a + b
+		}
+		for pass, changed := 0, true; changed && pass < 64; pass++ {
 			changed = false
 			for i := range h.Steps {
 				for _, alt := range shrinkArgs(h.Steps[i]) {
+					if pass > 0 && cost(alt) >= cost(h.Steps[i]) {
+						continue
+					}
 					c := h
 					c.Steps = append([]Step(nil), h.Steps...)
 					c.Steps[i] = alt
